@@ -45,7 +45,7 @@ Definition chk_ends (y m d : Z) : bool :=
 
 (* the weekday does not change during the civil day: noon, late evening, last binary64 instant *)
 Definition day_instants (n : Z) : list float :=
-  [(jde_of n + 0.5)%float; (jde_of n + 0.999999)%float; next_down (jde_of (n + 1))].
+  [(jde_of n + 0.5)%float; (jde_of n + 0x1.ffffde7210be9p-1)%float; next_down (jde_of (n + 1))].
 Definition chk_within (y m d : Z) : bool :=
   let n := jdn y m d in
   forallb (fun j => val_eqb (dow (ep j)) (VInt ((n + 1) mod 7))) (day_instants n).
